@@ -124,11 +124,11 @@ theorem mapE_all_iff {α β : Type} (g : α → M β) (P : β → Bool) (l : Lis
 /-- **the side-car loads exactly when every entry is a well-formed region that passes the
 setter's test** — no assumption on the entries -/
 theorem loadSubs_ok_iff_general (m : Mesh) (l : List (String × Region)) :
-    (∃ m1, loadSubs m (some l) = .ok m1) ↔ ∀ p ∈ l, p.2.Inv ∧ T.subOk m p.2 = true := by
+    (∃ m1, loadSubs m (some l) = .ok m1) ↔ ∀ p ∈ l, p.2.Inv ∧ T.candOk m p.2 = true := by
   have key := mapE_all_iff (fun (p : String × Region) => (regionKw p.2).map fun r => (p.1, r))
-    (fun (q : String × Region) => T.subOk m q.2) l
+    (fun (q : String × Region) => T.candOk m q.2) l
   have hentry : ∀ p : String × Region,
-      (∃ y, ((regionKw p.2).map fun r => (p.1, r)) = .ok y ∧ T.subOk m y.2 = true) ↔ (p.2.Inv ∧ T.subOk m p.2 = true) := by
+      (∃ y, ((regionKw p.2).map fun r => (p.1, r)) = .ok y ∧ T.candOk m y.2 = true) ↔ (p.2.Inv ∧ T.candOk m p.2 = true) := by
     intro p
     constructor
     · rintro ⟨y, hy, hs⟩
@@ -154,7 +154,7 @@ theorem loadSubs_ok_iff_general (m : Mesh) (l : List (String × Region)) :
     | ok subs =>
       rw [hm] at h
       simp only at h
-      have hall : subs.all (fun q => T.subOk m q.2) = true := by
+      have hall : subs.all (fun q => T.candOk m q.2) = true := by
         unfold T.setSubs at h
         split at h
         · assumption
